@@ -15,6 +15,7 @@ mod c03;
 mod c20;
 mod c16;
 mod c06;
+mod c13;
 
 fn main() {
     let mode = std::env::args().nth(1).unwrap_or_default();
@@ -66,6 +67,8 @@ fn dispatch(mode: &str, line: &str) -> String {
         "c20" => c20::run(line),
         "c16" => c16::run(line),
         "c06" => c06::run(line),
+        "c13" => c13::run(line),
+        "c17" => c13::run17(line),
         _ => format!("bad-mode {mode}"),
     }
 }
